@@ -35,3 +35,22 @@ package secp256k1
 //@ ensures[on-curve] isnil(result1) ==> (subGroupCheck && insub) || (!subGroupCheck && oncurve)
 //@ modifies p
 //@ end
+
+// The encoder (there is only the raw form and no flag byte: the format has no spare bit): the first window of fp.Bytes
+// bytes receives X, the second Y, each exactly once, through the base field's big-endian codec (an opaque call that
+// overwrites its window; what it writes is its C08 contract); nothing else is written.
+//@ func G1Affine.RawBytes
+//@ layer ring fp.Element
+//@ option opaque-calls
+//@ option opaque-writes PutElement:1
+//@ option nomerge
+//@ ghost n = 0
+//@ ghost seen = 0
+//@ cut before call PutElement #*
+//@ + invariant[layout] samebase(callarg1, res) && ((winoff(callarg1) == 0*fp.Bytes && callarg2 == p.X) || (winoff(callarg1) == 1*fp.Bytes && callarg2 == p.Y))
+//@ cut after call PutElement #*
+//@ + ghost seen = seen + ite(winoff(callarg1) == 0*fp.Bytes, 1, ite(winoff(callarg1) == 1*fp.Bytes, 2, 0))
+//@ + ghost n = n + 1
+//@ ensures[every-coordinate-once] n == 2 && seen == 3
+//@ modifies nothing
+//@ end
